@@ -237,6 +237,26 @@ let do_sock (args : string list) =
   | ["addr"] -> print_endline (kaddr_str !wsock.Sock.w_k)
   | _ -> failwith "sock"
 
+(* ---- Params.validate on Python values: tokens  none | i:<int> | b:0/1 | f:<num>/<den> | nan | str | obj ---- *)
+let pv_of s =
+  if s = "none" then Params.PNone else if s = "nan" then Params.PNonFinite else if s = "str" then Params.PStr
+  else if s = "obj" then Params.POther
+  else match S.split_on_char ':' s with
+    | ["i"; v] -> Params.PInt (zi v)
+    | ["b"; v] -> Params.PBool (bool_of v)
+    | ["f"; v] -> (match S.split_on_char '/' v with
+        | [n; d] -> Params.PFloat { QArith_base.coq_Qnum = zi n; QArith_base.coq_Qden = pos_of_int (int_of_string d) }
+        | _ -> failwith "float")
+    | _ -> failwith ("pv " ^ s)
+let do_validate = function
+  | [a1; a2; a3; a4; a5; a6; a7; a8; a9; a10; a11; a12; a13; a14; a15; a16; a17; a18] ->
+      let p = { Params.q_stmin = pv_of a1; q_blocksize = pv_of a2; q_override = pv_of a3; q_tbs = pv_of a4; q_tcr = pv_of a5;
+                q_padding = pv_of a6; q_wftmax = pv_of a7; q_tx_dl = pv_of a8; q_min_len = pv_of a9; q_max_frame_size = pv_of a10;
+                q_can_fd = pv_of a11; q_brs = pv_of a12; q_tat = pv_of a13; q_bitrate = pv_of a14; q_window = pv_of a15;
+                q_lim_enable = pv_of a16; q_listen = pv_of a17; q_blocking = pv_of a18 } in
+      print_endline (b01 (Params.validate p))
+  | _ -> failwith "validate"
+
 let do_kern (args : string list) =
   match args with
   | ["reset"] -> kern := Kernel.kinit; print_endline "ok"
@@ -270,6 +290,7 @@ let () =
        | "Q" :: args -> do_query args
        | "S" :: args -> do_sock args
        | "K" :: args -> do_kern args
+       | "V" :: args -> do_validate args
        | ["ECHO"; s] -> print_endline s
        | _ -> failwith ("line " ^ line));
       flush stdout
